@@ -350,6 +350,10 @@ int main(int argc, char** argv) {
     quick.push_back(cfg(SplaySys<int, std::less, true>(3, 3, 9), smp_mset));
     quick.push_back(cfg(SplaySys<int, std::greater, true>(3, 3, 9)));
     quick.push_back(cfg(SplaySys<Tracked, std::greater, true>(3, 3, 9)));
+    // runs of four and five equal keys (erase below a chain of >= 3 equal nodes only exists from multiplicity 4 on), total size capped
+    quick.push_back(cfg(SplaySys<int, std::less, true>(3, 5, 7)));
+    quick.push_back(cfg(SplaySys<int, std::less, false>(7, 1, 7)));
+    quick.push_back(cfg(SplaySys<int, std::greater, true>(2, 6, 8)));
     quick.push_back(cfg(SplaySys<int, std::less, false>(2, 1, 2, true),
                         "raw-set-less-int-k2: keys {0,1}, no harness guard against freed nodes: the next tlx call runs and ASan is the oracle"));
     // thorough
